@@ -38,12 +38,21 @@ def int_range(sub):
     return -(2 ** (bits - 1)), 2 ** (bits - 1) - 1
 
 
+def _wide(lim):
+    """Integers of large magnitude with arbitrary low bits (st.integers alone favours small values and range ends)."""
+    if lim < 2 ** 24:
+        return st.integers(-lim, lim)
+    return st.tuples(st.integers(1, max(1, lim >> 20) - 1), st.integers(0, 2 ** 20 - 1), st.booleans()).map(
+        lambda t: (-1 if t[2] else 1) * min(lim, (t[0] << 20) | t[1]))
+
+
 def ints_for(sub):
     lo, hi = int_range(sub)
     edge = st.sampled_from(sorted({lo, lo + 1, -1 if lo < 0 else 0, 0, 1, hi - 1, hi,
                                    min(hi, 127), min(hi, 128), min(hi, 255), min(hi, 256),
                                    min(hi, 2 ** 31 - 1), min(hi, 2 ** 31), min(hi, 2 ** 63 - 1)}))
-    return st.one_of(edge, st.integers(lo, hi), st.integers(max(lo, -200), min(hi, 200)))
+    wide = _wide(hi).map(lambda v: v if v >= lo else -v)
+    return st.one_of(edge, st.integers(lo, hi), wide, st.integers(max(lo, -200), min(hi, 200)))
 
 
 def floats_for(sub):
@@ -96,16 +105,16 @@ def ticks_for(unit, kind):
         lo, hi = lo + 2 * day, hi - 2 * day
         near = [0, 1, -1, 86399 * (10 ** 9 // UNIT_NS[unit]), 1585443600 * 10 ** 9 // UNIT_NS[unit],  # DST change 2020-03-29
                 1603587600 * 10 ** 9 // UNIT_NS[unit], lo, hi]
-        return st.one_of(st.sampled_from(near), st.integers(lo, hi),
+        return st.one_of(st.sampled_from(near), st.integers(lo, hi), _wide(hi),
                          st.integers(0, 2 * 10 ** 9 * 10 ** 9 // UNIT_NS[unit]))
     # timedelta: whole microseconds and the microsecond count fits int64
     if unit == "ns":
-        us = st.one_of(st.integers(-(2 ** 63 - 1) // 1000 + 1, (2 ** 63 - 1) // 1000 - 1),
+        us = st.one_of(st.integers(-(2 ** 63 - 1) // 1000 + 1, (2 ** 63 - 1) // 1000 - 1), _wide((2 ** 63 - 1) // 1000 - 1),
                        st.integers(-10 ** 9, 10 ** 9), st.sampled_from([0, 1, -1]))
         return us.map(lambda u: u * 1000)
     lim_us = (2 ** 63 - 1) // max(1, UNIT_NS[unit] // 1000)
     lim2 = min(lim, lim_us) - 1
-    return st.one_of(st.integers(-lim2, lim2), st.integers(-10 ** 6, 10 ** 6), st.sampled_from([0, 1, -1]))
+    return st.one_of(st.integers(-lim2, lim2), _wide(lim2), st.integers(-10 ** 6, 10 ** 6), st.sampled_from([0, 1, -1]))
 
 
 @st.composite
